@@ -40,7 +40,8 @@ vars == <<wa, wb, wc, wd, h, side, done>>
 
 \* wd: an optional second infoset of player two with many actions; probabilities such as 1/10 or 1/7 are
 \* not exact in binary floating point, so the stored infoset sums to one only up to rounding
-Wide == {[j \in 1..10 |-> 1], [j \in 1..7 |-> 1], <<1, 2, 4>>, <<3, 3, 1>>, [j \in 1..6 |-> IF j = 1 THEN 5 ELSE 1]}
+Wide == {[j \in 1..10 |-> 1], [j \in 1..7 |-> 1], <<1, 2, 4>>, <<3, 3, 1>>, [j \in 1..6 |-> IF j = 1 THEN 5 ELSE 1],
+         <<1, 2, 3, 2>>, <<5, 1, 1, 3>>}
 S == IF wd = <<>> THEN <<Normalise(wa), Normalise(wb), Normalise(wc)>>
      ELSE <<Normalise(wa), Normalise(wb), Normalise(wc), Normalise(wd)>>
 
@@ -50,7 +51,9 @@ Init == /\ wd \in {<<>>} \cup Wide
         /\ h \in Thresholds(S)
         \* which player owns what: "both" as described above; "swapped" the players exchanged; "two-only" /
         \* "one-only": one player owns every infoset and the other has no decision with several actions
-        /\ side \in {"both", "swapped", "two-only", "one-only"}
+        \* "mean-first" (four-action wd only): one player owns infosets of 3, 2 and 4 actions in this order - the number
+        \* of actions of the FIRST equals the mean, although the infosets are not of one size
+        /\ side \in {"both", "swapped", "two-only", "one-only"} \cup (IF Len(wd) = 4 THEN {"mean-first", "mean-first-two"} ELSE {})
         /\ done = FALSE
 
 Expected == [i \in 1..Len(S) |-> IF SomeExceeds(S[i], h) THEN [fixed |-> TRUE, v |-> TruncKeep(S[i], h)]
@@ -64,10 +67,14 @@ Next == /\ ~done
                w == IF side = "both" THEN <<first, second>>
                     ELSE IF side = "swapped" THEN <<second, first>>
                     ELSE IF side = "two-only" THEN <<<<>>, first \o second>>
+                    ELSE IF side = "mean-first" THEN <<<<wb, wa, wd>>, <<wc>>>>
+                    ELSE IF side = "mean-first-two" THEN <<<<wc>>, <<wb, wa, wd>>>>
                     ELSE <<first \o second, <<>>>>
                \* the expected infosets in the order of w (player one's first)
                e == IF side = "swapped"
                     THEN [i \in 1..Len(S) |-> Expected[IF i <= Len(second) THEN 2 + i ELSE i - Len(second)]]
+                    ELSE IF side = "mean-first" THEN <<Expected[2], Expected[1], Expected[4], Expected[3]>>
+                    ELSE IF side = "mean-first-two" THEN <<Expected[3], Expected[2], Expected[1], Expected[4]>>
                     ELSE Expected
            IN PrintT(<<"OUT", 0, ToJson([w |-> w, h |-> h, exp |-> e])>>)
 
